@@ -343,5 +343,25 @@ theorem pemLaw_trim_nonempty {P : PemCodec} (L : PemLaw P) (t b : Bytes)
   | nil => rw [h] at this; simp [hasPrefix, pemBegin] at this
   | cons => rfl
 
+/-- Concurrent first start: the fold keeps the path missing-or-file and serves every caller. -/
+theorem concurrent_fold (P : PemCodec) (ks : List Bytes) (acc : List KeyErr) (fs : FsState)
+    (hfs : fs = .missing ∨ ∃ b, fs = .file b) :
+    let r := ks.foldl (fun (acc : List KeyErr × FsState) k =>
+      ((acc.1 ++ [(writeAfterMissing P k acc.2).1]), (writeAfterMissing P k acc.2).2)) (acc, fs)
+    r.1 = acc ++ ks.map (fun k => (⟨some k, false⟩ : KeyErr)) ∧ (r.2 = .missing ∨ ∃ b, r.2 = .file b) := by
+  induction ks generalizing acc fs with
+  | nil => simp [hfs]
+  | cons k ks ih =>
+    simp only [List.foldl_cons]
+    have hstep : writeAfterMissing P k fs = (⟨some k, false⟩, .file (marshalPrivKeyPem P k)) := by
+      rcases hfs with h | ⟨b, h⟩ <;> subst h <;> rfl
+    rw [hstep]
+    have := ih (acc ++ [⟨some k, false⟩]) (.file (marshalPrivKeyPem P k)) (.inr ⟨_, rfl⟩)
+    simp only [List.map_cons]
+    constructor
+    · rw [this.1]; simp
+    · exact this.2
+
+
 end Config
 end Bifrost
